@@ -35,6 +35,19 @@ func (n *vfNode) mode() uint32 {
 	return 0o100000 | n.Perm
 }
 
+// skewed applies the configured error to the size a STAT/LSTAT/FSTAT reports: what a stat says and what the
+// handle then delivers may differ (the file was replaced or has grown or shrunk in between).
+func (p *vfPeer) skewed(a *vfAttrs) *vfAttrs {
+	if p.sizeSkew != 0 {
+		if v := int64(a.Size) + p.sizeSkew; v >= 0 {
+			a.Size = uint64(v)
+		} else {
+			a.Size = 0
+		}
+	}
+	return a
+}
+
 func (n *vfNode) attrs() *vfAttrs {
 	a := &vfAttrs{Flags: vfAttrSize | vfAttrUIDGID | vfAttrPermissions | vfAttrACModTime, Size: uint64(len(n.Data)),
 		UID: n.UID, GID: n.GID, Perm: n.mode(), Atime: n.Atime, Mtime: n.Mtime}
@@ -74,6 +87,7 @@ type vfPeer struct {
 	exts     []vfExt
 	version  uint32
 	batch    int // READDIR batch size
+	sizeSkew int64 // added to every size reported by STAT/LSTAT/FSTAT
 	reqs     []vfPeerReq
 	maxOut   int // largest number of replies held at once
 	closedHs map[string]bool
@@ -408,13 +422,13 @@ func (p *vfPeer) handle(req *vfPkt) *vfPkt {
 		if n == nil {
 			return noSuch()
 		}
-		return &vfPkt{Type: vfFxpAttrs, ID: id, Attrs: n.attrs()}
+		return &vfPkt{Type: vfFxpAttrs, ID: id, Attrs: p.skewed(n.attrs())}
 	case vfFxpFstat:
 		h := p.handles[string(req.Handle)]
 		if h == nil {
 			return p.status(id, vfFxFailure, "bad handle")
 		}
-		return &vfPkt{Type: vfFxpAttrs, ID: id, Attrs: h.node.attrs()}
+		return &vfPkt{Type: vfFxpAttrs, ID: id, Attrs: p.skewed(h.node.attrs())}
 	case vfFxpSetstat, vfFxpFsetstat:
 		var n *vfNode
 		if req.Type == vfFxpSetstat {
